@@ -207,3 +207,77 @@ Proof.
   - vm_compute. discriminate.
   - intros H. specialize (H 0%nat 0%nat ltac:(lia) ltac:(lia)). vm_compute in H. discriminate.
 Qed.
+
+
+(* ---------- nested basis contexts ---------- *)
+Section NestedLemmas.
+  Context {R : StarRing}.
+  Add Ring Rrn : (rth R).
+
+  Lemma nested_fold_ext n ctx (X X' : @mat R) : meq n X X' ->
+    meq n (fold_left (fun X c => mmul n (snd c) (mmul n X (fst c))) ctx X) (fold_left (fun X c => mmul n (snd c) (mmul n X (fst c))) ctx X').
+  Proof.
+    revert X X'. induction ctx as [|c ctx IH]; intros X X' H; cbn [fold_left]; [exact H|].
+    apply IH. apply mmul_ext; [apply meq_refl|]. apply mmul_ext; [exact H|apply meq_refl].
+  Qed.
+
+  Lemma nested_general n ctx (A T S : @mat R) :
+    meq n (fold_left (fun X c => mmul n (snd c) (mmul n X (fst c))) ctx (mmul n T (mmul n A S)))
+          (mmul n (fold_left (fun T Zi => mmul n Zi T) (map snd ctx) T) (mmul n A (fold_left (fun S Z => mmul n S Z) (map fst ctx) S))).
+  Proof.
+    revert T S. induction ctx as [|[Z Zi] ctx IH]; intros T S; cbn [fold_left map fst snd]; [apply meq_refl|].
+    apply meq_trans with (fold_left (fun X c => mmul n (snd c) (mmul n X (fst c))) ctx (mmul n (mmul n Zi T) (mmul n A (mmul n S Z)))); [|apply IH].
+    apply nested_fold_ext.
+    (* Zi ((T (A S)) Z) = (Zi T) (A (S Z)) *)
+    apply meq_trans with (mmul n Zi (mmul n T (mmul n (mmul n A S) Z))).
+    { apply mmul_ext; [apply meq_refl|]. apply mmul_assoc. }
+    apply meq_trans with (mmul n Zi (mmul n T (mmul n A (mmul n S Z)))).
+    { apply mmul_ext; [apply meq_refl|]. apply mmul_ext; [apply meq_refl|]. apply mmul_assoc. }
+    apply mmul3_assoc.
+  Qed.
+
+  (* inside nested contexts the data of an operator are  (Zi_m ... Zi_1) . A . (Z_1 ... Z_m):  the transformation from the site
+     basis to the current one is the product of the transformations in the order in which the contexts were entered *)
+  Lemma nested_data_accumulated n ctx (A : @mat R) :
+    meq n (nested_data n ctx A) (mmul n (inverse_product n (map snd ctx)) (mmul n A (basis_product n (map fst ctx)))).
+  Proof.
+    unfold nested_data, inverse_product, basis_product.
+    apply meq_trans with (fold_left (fun X c => mmul n (snd c) (mmul n X (fst c))) ctx (mmul n mid (mmul n A mid))); [|apply nested_general].
+    apply nested_fold_ext. apply meq_sym.
+    apply meq_trans with (mmul n A mid); [apply mmul_id_l|apply mmul_id_r].
+  Qed.
+
+  Lemma product_inverse_general n ctx (S T : @mat R) :
+    (forall c, In c ctx -> meq n (mmul n (fst c) (snd c)) mid) ->
+    meq n (mmul n (fold_left (fun S Z => mmul n S Z) (map fst ctx) S) (fold_left (fun T Zi => mmul n Zi T) (map snd ctx) T)) (mmul n S T).
+  Proof.
+    revert S T. induction ctx as [|[Z Zi] ctx IH]; intros S T H; cbn [fold_left map fst snd]; [apply meq_refl|].
+    apply meq_trans with (mmul n (mmul n S Z) (mmul n Zi T)); [apply IH; intros c Hc; apply H; now right|].
+    (* (S Z)(Zi T) = S ((Z Zi) T) = S T *)
+    apply meq_trans with (mmul n S (mmul n Z (mmul n Zi T))); [apply mmul_assoc|].
+    apply mmul_ext; [apply meq_refl|].
+    apply meq_trans with (mmul n (mmul n Z Zi) T); [apply mmul3_assoc|].
+    apply meq_trans with (mmul n mid T); [|apply mmul_id_l].
+    apply mmul_ext; [|apply meq_refl]. apply (H (Z, Zi)). now left.
+  Qed.
+
+  Lemma basis_product_inverse n ctx : (forall c, In c ctx -> meq n (mmul n (fst c) (snd c)) (mid (R:=R))) ->
+    meq n (mmul n (basis_product n (map fst ctx)) (inverse_product n (map snd ctx))) mid.
+  Proof.
+    intros H. unfold basis_product, inverse_product.
+    apply meq_trans with (mmul n (mid (R:=R)) mid); [now apply product_inverse_general|apply mmul_id_l].
+  Qed.
+
+  (* strong coupling inside nested contexts: the energies read from the accumulated transformation are the site energies *)
+  Lemma strong_energies_nested n ctx (Hsite : @mat R) i : (i < n)%nat ->
+    (forall c, In c ctx -> meq n (mmul n (fst c) (snd c)) mid) ->
+    strong_energies Fixed n (basis_product n (map fst ctx)) (inverse_product n (map snd ctx)) (nested_data n ctx Hsite) i = Hsite i i.
+  Proof.
+    intros Hi H. set (S := basis_product n (map fst ctx)). set (S1 := inverse_product n (map snd ctx)).
+    rewrite <- (strong_fixed_energies n S S1 Hsite i (basis_product_inverse n ctx H) Hi).
+    unfold strong_energies. cbv zeta. rewrite !tab2_spec by exact Hi. unfold site_repr.
+    rewrite (mmul3_ext n S S (nested_data n ctx Hsite) (mmul n S1 (mmul n Hsite S)) S1 S1 (meq_refl n S) (nested_data_accumulated n ctx Hsite)
+               (meq_refl n S1) i i Hi Hi).
+    symmetry. apply (mmul3_spec n S (mmul n S1 (mmul n Hsite S)) S1 i i Hi Hi).
+  Qed.
+End NestedLemmas.
